@@ -219,7 +219,7 @@ func mutate(t *rapid.T, root map[string]any) (string, []string) {
 		w    int
 	}
 	ops := []op{{"delete-elem", 2}, {"disc-mapping", 2}, {"delete", 4}, {"null", 3}, {"swap", 4}, {"drop-schema", 3}, {"schema-to-content", 2}, {"drop-items", 2}, {"server-var", 2},
-		{"bad-ref", 3}, {"cyclic-ref", 2}, {"extension", 2}, {"json-pointer-ref", 1}, {"path-param-mismatch", 1}, {"null-component", 1}, {"empty-security-requirement", 1}, {"forward-array-component", 1}, {"servers", 2}, {"security-scheme", 2}, {"bad-type", 2}, {"empty-map", 2}, {"param-missing", 2}, {"status-pattern", 1}, {"dup-path-var", 1}}
+		{"bad-ref", 3}, {"cyclic-ref", 2}, {"extension", 2}, {"json-pointer-ref", 1}, {"path-param-mismatch", 1}, {"null-component", 1}, {"empty-security-requirement", 1}, {"forward-array-component", 1}, {"servers", 2}, {"security-scheme", 2}, {"required-undeclared", 2}, {"bad-type", 2}, {"empty-map", 2}, {"param-missing", 2}, {"status-pattern", 1}, {"dup-path-var", 1}}
 	var names []string
 	for _, o := range ops {
 		for i := 0; i < o.w; i++ {
@@ -446,12 +446,69 @@ func mutate(t *rapid.T, root map[string]any) (string, []string) {
 		if s, ok := pick(schemas); ok {
 			m := s.get().(map[string]any)
 			k := rapid.SampledFrom([]string{"x-goag-go-type", "x-goag-go-time-format", "x-goag-unknown"}).Draw(t, "ext_key")
-			m[k] = rapid.SampledFrom([]any{"github.com/foo/Bar", "github.com/foo/bar.Baz", "", ".", "a.", ".b", "a/b/c", "a/b.c/d", "time.Time", "[]byte", "pkg.Type", "../x.Y", "a b.c", "*net/url.URL", "map[string]any",
+			m[k] = rapid.SampledFrom([]any{"github.com/foo/Bar", "github.com/foo/bar.Baz", "", ".", "a.", ".b", "a/b/c", "a/b.c/d", "time.Time", "[]byte", "pkg.Type", "v1.Pet", "v2.Item", "example.com/acme/petapi/v2.Pet", "example.com/v3.T", "v.T", "../x.Y", "a b.c", "*net/url.URL", "map[string]any",
 				float64(123), nil, true, []any{"a"}, map[string]any{"a": "b"}, "time.RFC1123", "\"2006\""}).Draw(t, "ext_val")
 			if rapid.Bool().Draw(t, "ext_datetime") {
 				m["type"], m["format"] = "string", "date-time"
 			}
 			return "extension:" + k, s.path
+		}
+	case "required-undeclared":
+		// `required` naming a property the schema does not declare itself: a ghost, or a
+		// property that only a member of its allOf (declared before or after it) brings in
+		var objs []site
+		for _, st := range sites {
+			if m, ok := st.get().(map[string]any); ok {
+				_, hasProps := m["properties"].(map[string]any)
+				_, hasAllOf := m["allOf"].([]any)
+				if hasProps || hasAllOf {
+					objs = append(objs, st)
+				}
+			}
+		}
+		if rapid.Bool().Draw(t, "required_from_allof_member") {
+			// the usual way to write it: a derived schema requires what its base declares
+			comps, _ := root["components"].(map[string]any)
+			if comps == nil {
+				comps = map[string]any{}
+				root["components"] = comps
+			}
+			ss, _ := comps["schemas"].(map[string]any)
+			if ss == nil {
+				ss = map[string]any{}
+				comps["schemas"] = ss
+			}
+			derived, base := "AaDerived", "ZzBase"
+			if rapid.Bool().Draw(t, "derived_sorts_last") {
+				derived, base = "ZzDerived", "AaBase"
+			}
+			ss[base] = map[string]any{"type": "object", "properties": map[string]any{"name": map[string]any{"type": "string"}, "tag": map[string]any{"type": "string"}}}
+			ss[derived] = map[string]any{"required": []any{"name"}, "allOf": []any{map[string]any{"$ref": "#/components/schemas/" + base}, map[string]any{"type": "object", "properties": map[string]any{"skill": map[string]any{"type": "string"}}}}}
+			return "required-undeclared:from-allof-member", []string{"components", "schemas", derived}
+		}
+		if st, ok := pick(objs); ok {
+			m := st.get().(map[string]any)
+			names := []string{"ghost", "Ghost2"}
+			if comps, _ := root["components"].(map[string]any); comps != nil {
+				if ss, _ := comps["schemas"].(map[string]any); ss != nil {
+					for _, cs := range ss {
+						if cm, _ := cs.(map[string]any); cm != nil {
+							if ps, _ := cm["properties"].(map[string]any); ps != nil {
+								for k := range ps {
+									names = append(names, k)
+								}
+							}
+						}
+					}
+				}
+			}
+			sort.Strings(names)
+			req, _ := m["required"].([]any)
+			for i, n := 0, rapid.IntRange(1, 3).Draw(t, "n_undeclared"); i < n; i++ {
+				req = append(req, names[rapid.IntRange(0, len(names)-1).Draw(t, "undeclared_name")])
+			}
+			m["required"] = req
+			return "required-undeclared", st.path
 		}
 	case "empty-security-requirement":
 		// `{}` inside a security list is OpenAPI's way to say "or anonymous"
